@@ -228,7 +228,15 @@ void run_case(ByteSource& s, CaseInfo& ci) {
           if (v[i].st == VALID && !v[i].ext && threw_before) released_after_throw[v[i].d] = true;
           v[i] = VS(); break;
         }
-        case 37: SU_vector::clear_mem_cache(); for (bool& r : released_after_throw) r = false; break;
+        case 37:
+          if (s.tail_choose(4) == 1) {  // (tail byte) more vectors of one dimension alive at once than the cache holds (32): the surplus must be freed on release
+            int d = gen_dim(s); int n = 33 + (int)s.tail_choose(16);
+            std::vector<SU_vector> burst; burst.reserve(n);
+            for (int q = 0; q < n; q++) burst.emplace_back(SU_vector::make_aligned(d));
+            ci.label("cache-overflow-burst");
+            break;
+          }
+          SU_vector::clear_mem_cache(); for (bool& r : released_after_throw) r = false; break;
         case 38: {  // Const index checks
           squids::Const p; unsigned a = s.choose(8), b = s.choose(8);
           switch (s.choose(4)) { case 0: p.SetMixingAngle(a, b, 0.1); break; case 1: p.SetPhase(a, b, 0.1); break; case 2: p.SetEnergyDifference(a, 0.1); break; default: { auto U = p.GetTransformationMatrix(2 + s.choose(7)); (void)U; break; } }
